@@ -721,7 +721,7 @@ func runDifferential(t *testing.T, s *verifh.Sink, vec, row *srv, kp, la, lb str
 					}
 				}
 				if q.top > 0 {
-					checkTop(s, resp, arows, q, path)
+					checkTop(s, resp, arows, q, path, path == "cluster" && spansShards(q) && vec.replicas > 0)
 				}
 			}
 		}
@@ -805,7 +805,7 @@ func diffAgg(got, want map[string]int64, q aggQuery) string {
 }
 
 // checkTop: TOP/BOTTOM-N over raw points or over an aggregate per group.
-func checkTop(s *verifh.Sink, resp *measurev1.QueryResponse, rows []aggRow, q aggQuery, path string) {
+func checkTop(s *verifh.Sink, resp *measurev1.QueryResponse, rows []aggRow, q aggQuery, path string, miscountedPartials bool) {
 	var vals []int64
 	if q.hasAgg {
 		for _, v := range refAgg(rows, q) {
@@ -848,6 +848,10 @@ func checkTop(s *verifh.Sink, resp *measurev1.QueryResponse, rows []aggRow, q ag
 		bad = got[i] != vals[i]
 	}
 	if bad {
-		s.Violation("c10:svc:"+path+":top:differs-from-reference", map[string]any{"query": q.desc, "path": path, "returned_values": got, "reference_values": vals[:n]})
+		key := "c10:svc:" + path + ":top:differs-from-reference"
+		if miscountedPartials { // the recorded replica/partial finding also changes which aggregates are extreme
+			key = "c10:svc:cluster:group-spanning-shards-with-replicas:partials-miscounted"
+		}
+		s.Violation(key, map[string]any{"query": q.desc, "path": path, "returned_values": got, "reference_values": vals[:n]})
 	}
 }
